@@ -29,6 +29,7 @@ from common import Outcome, Scratch, pmap, tlc
 
 PID = "C01"
 RECLIMIT = sys.getrecursionlimit()
+PARSE_LIMIT_S = 5.0     # a parse that takes longer is recorded as "not judged" (slow, not wrong)
 DEV_PRE = "PreParseLeftSet"
 DEV_TITLE = "HeadingTitleLost"
 
@@ -305,7 +306,10 @@ def run_docs(chunk):
         try:
             for did, text, want_model in chunk:
                 for mode in pt.MODES:
-                    root, err, flags = pt.parse(ctx, text, mode)
+                    root, err, flags = pt.parse(ctx, text, mode, limit=PARSE_LIMIT_S)
+                    if err == "TIMEOUT":
+                        res.append((did, mode, err, flags, None, None))
+                        break                      # not judged; the other modes would be as slow
                     if root is None:
                         res.append((did, mode, err, flags, None, None))
                         continue
@@ -380,6 +384,13 @@ def check_batch(o: Outcome, docs, origin, want_model=frozenset(), predicted=None
             continue
         o.evaluations += 1
         text = docs[did]
+        if err == "TIMEOUT":
+            # slow, not wrong: parse() did not return within the limit (see notes/C01.md, cubic link regex)
+            slow = o.extra.setdefault("parses_over_time_limit_not_judged", {"limit_s": PARSE_LIMIT_S, "count": 0, "examples": []})
+            slow["count"] += 1
+            if len(slow["examples"]) < 3:
+                slow["examples"].append({"origin": origin, "mode": mode, "text_len": len(text), "text_head": text[:200]})
+            continue
         if err is not None:
             o.violation({"origin": origin, "mode": mode, "text": text, "error": err},
                         f"parse(..., {mode}) raised {err}", cls="exception:" + err.split(":")[0])
